@@ -79,9 +79,11 @@ Theorem C17_lock_discipline :
 Proof. exact lock_discipline. Qed.
 Print Assumptions C17_lock_discipline.
 
-(* each listed site is a refutation of the discipline: a conflicting pair of the table with no
-   common lock and no hand-shake (KeystoreManager.UpdateManagedKeystores touches managedKeystores
-   without km.mu; AddrManager.updateManagedAddress writes addrs/branchInfo without a.mu) *)
+(* each site of that list ([unprotected_pinned] = [unprotected_writers lock_table], computed from the
+   table of the current tree) is a refutation of the discipline: a conflicting pair of the table
+   with no common lock and no hand-shake.  At the time of writing: KeystoreManager.
+   UpdateManagedKeystores touches managedKeystores without km.mu; AddrManager.updateManagedAddress
+   writes addrs / branchInfo without a.mu.  The list is empty once these are repaired. *)
 Theorem C17_lock_discipline_refuted :
   forall vw, In vw unprotected_pinned ->
     exists a1 a2, In a1 lock_table /\ In a2 lock_table /\ a_write a1 = true /\ (a_var a1, a_site a1) = vw /\
